@@ -3,7 +3,8 @@
      libqpdf/BufferInputSource.cc, FileInputSource.cc   findAndSkipNextEOL
      libqpdf/InputSource.cc     findFirst / findLast (as used for "startxref")
      libqpdf/QPDF_objects.cc    Objects::parse (triggers), findStartxref, read_xref, read_xrefTable,
-                                parse_xrefFirst, read_xrefEntry, read_bad_xrefEntry, insertXrefEntry,
+                                parse_xrefFirst, read_xrefEntry, read_bad_xrefEntry, read_xrefStream,
+                                processXRefStream (processXRefW / Size / Index), insertXrefEntry,
                                 insertFreeXrefEntry, reconstruct_xref, read_object_start,
                                 readObjectAtOffset(try_recovery), resolve
      libqpdf/QPDFJob.cc         exit status (any warning => 3, error => 2)
@@ -14,10 +15,12 @@
    dd6235ea comment at end of input gives tt_eof).
    What is NOT modelled (and is therefore only covered by the twin comparison of harness/c08.py, not by the
    theorems): the object parser (trailer dictionaries and the /Type /Catalog test use the strict specification
-   parser StrictSyntax.parse_obj, which agrees with qpdf's parser on intact dictionaries), cross-reference
-   streams and /XRefStm (never present in the generated class: a file that needs them is reported as
-   r_unsupported), stream-length recovery of non-stream-length damage classes, the page-tree walk. *)
-From QV Require Import Base.Bytes File.StrictSyntax.
+   parser StrictSyntax.parse_obj, which agrees with qpdf's parser on intact dictionaries), object streams
+   (type 2 entries) and /XRefStm, cross-reference streams whose /Length is wrong or whose filter is not plain
+   /FlateDecode (a file that needs any of these is reported as r_unsupported), stream-length recovery of
+   non-stream-length damage classes, the page-tree walk.  Cross-reference streams themselves are modelled
+   (read_xrefStream, processXRefStream and its helpers, the xref-stream fallback of reconstruct_xref). *)
+From QV Require Import Base.Bytes File.StrictSyntax File.Inflate.
 Local Open Scope N_scope.
 
 (* ------------------------------------------------------------------ character classes *)
@@ -589,6 +592,199 @@ Fixpoint rc_highest_gen (t : rc_table) : rc_table :=
   | _ => t
   end.
 
+(* ------------------------------------------------------------------ read_object_start *)
+Definition rc_object_start (s : list N) : option rc_og :=
+  let t1 := rc_read_token 0 s in
+  if rc_is_int t1 then
+    let s1 := rc_drop (rc_t_end t1) s in
+    let t2 := rc_read_token 0 s1 in
+    if rc_is_int t2 then
+      let t3 := rc_read_token 0 (rc_drop (rc_t_end t2) s1) in
+      if rc_is_word t3 rc_kw_obj then
+        let o := rc_atoi (rc_t_raw t1) in
+        if (o =? 0)%Z then None else Some (o, rc_atoi (rc_t_raw t2))
+      else None
+    else None
+  else None.
+
+(* ------------------------------------------------------------------ cross-reference streams *)
+(* read_xrefStream / processXRefStream (processXRefW, processXRefSize, processXRefIndex, the size check, the entry
+   loop).  The stream object at the offset is taken apart with the strict specification parser; its data are the
+   /Length bytes after the stream keyword, which must be followed by endstream (stream-length recovery is not
+   modelled: r_unsupported), undecoded or through /FlateDecode without parameters (File/Inflate.v; any other filter:
+   r_unsupported).  Entries of type 2 (objects in object streams) are outside the class: r_unsupported. *)
+Definition rc_n_W : list N := [87].
+Definition rc_n_Index : list N := [73; 110; 100; 101; 120].
+Definition rc_n_Length : list N := [76; 101; 110; 103; 116; 104].
+Definition rc_n_Filter : list N := [70; 105; 108; 116; 101; 114].
+Definition rc_n_FlateDecode : list N := [70; 108; 97; 116; 101; 68; 101; 99; 111; 100; 101].
+Definition rc_n_DecodeParms : list N := [68; 101; 99; 111; 100; 101; 80; 97; 114; 109; 115].
+Definition rc_n_XRef : list N := [88; 82; 101; 102].
+Definition rc_kw_endstream : list N := [101; 110; 100; 115; 116; 114; 101; 97; 109].
+
+(* the dictionary of the object at `off` if that object is a stream of /Type /XRef (isStreamOfType), and what follows
+   the stream keyword *)
+Definition rc_xs_dict_at (file : list N) (len : N) (off : N) : option (list (list N * pobj) * list N) :=
+  if len <=? off then None else
+  let s := rc_drop off file in
+  match rc_object_start s with
+  | None => None
+  | Some _ =>
+      let t1 := rc_read_token 0 s in
+      let s1 := rc_drop (rc_t_end t1) s in
+      let t2 := rc_read_token 0 s1 in
+      let s2 := rc_drop (rc_t_end t2) s1 in
+      let t3 := rc_read_token 0 s2 in
+      match parse_obj 2000 (rc_drop (rc_t_end t3) s2) with
+      | Some (SpDict d, rest) =>
+          let t4 := rc_read_token 0 rest in
+          if rc_is_word t4 rc_kw_stream then
+            match dict_get d rc_n_Type with
+            | Some (SpName n) => if rc_beq n rc_n_XRef then Some (d, rc_drop (rc_t_end t4) rest) else None
+            | _ => None
+            end
+          else None
+      | _ => None
+      end
+  end.
+
+Inductive rc_xs_obj := XoNone | XoUnsupported | XoStream (d : list (list N * pobj)) (data : list N).
+
+(* getStreamData(qpdf_dl_specialized) of that object *)
+Definition rc_xs_object (file : list N) (len : N) (off : N) : rc_xs_obj :=
+  match rc_xs_dict_at file len off with
+  | None => XoNone
+  | Some (d, after) =>
+      let body := match after with 10 :: b => Some b | 13 :: 10 :: b => Some b | _ => None end in
+      match body, dict_get d rc_n_Length with
+      | Some b, Some (SpInt l) =>
+          if (l <? 0)%Z || (rc_len b <? Z.to_N l) then XoUnsupported else
+          let raw := firstn (Z.to_nat l) b in
+          if negb (rc_is_word (rc_read_token 0 (skipn (Z.to_nat l) b)) rc_kw_endstream) then XoUnsupported else
+          match dict_get d rc_n_Filter, dict_get d rc_n_DecodeParms with
+          | None, _ => XoStream d raw
+          | Some (SpName f), None =>
+              if rc_beq f rc_n_FlateDecode
+              then match zlib_inflate raw with Some (out, _) => XoStream d out | None => XoUnsupported end
+              else XoUnsupported
+          | _, _ => XoUnsupported
+          end
+      | _, _ => XoUnsupported
+      end
+  end.
+
+(* processXRefW: Some (w0, w1, w2), None = "does not have a proper /W key" and the like (thrown) *)
+Definition rc_xs_W (d : list (list N * pobj)) : option (N * N * N) :=
+  match dict_get d rc_n_W with
+  | Some (SpArr (SpInt a :: SpInt b :: SpInt c :: _)) =>
+      if ((0 <=? a) && (a <=? 8) && (0 <=? b) && (b <=? 8) && (0 <=? c) && (c <=? 8) && negb (a + b + c =? 0))%Z
+      then Some (Z.to_N a, Z.to_N b, Z.to_N c) else None
+  | _ => None
+  end.
+
+(* processXRefSize *)
+Definition rc_xs_size (d : list (list N * pobj)) : option Z :=
+  match dict_get d rc_n_Size with
+  | Some (SpInt z) => if (0 <=? z)%Z && (z <? rc_int_max)%Z then Some z else None
+  | _ => None
+  end.
+
+(* processXRefIndex: the subsections (first object, count) and the number of entries *)
+Fixpoint rc_xs_pairs (l : list pobj) : option (list (Z * Z)) :=
+  match l with
+  | [] => Some []
+  | SpInt f :: SpInt c :: r =>
+      if (f <? 0)%Z || (c <=? 0)%Z || (rc_int_max <? f)%Z || (rc_int_max <? c)%Z then None else
+      match rc_xs_pairs r with Some ps => Some ((f, c) :: ps) | None => None end
+  | _ => None
+  end.
+Definition rc_xs_index (d : list (list N * pobj)) (size : Z) : option (list (Z * Z)) :=
+  match dict_get d rc_n_Index with
+  | None | Some SpNull => Some [(0%Z, size)]
+  | Some (SpArr []) => None
+  | Some (SpArr l) => rc_xs_pairs l
+  | Some _ => None
+  end.
+Definition rc_xs_count (idx : list (Z * Z)) : Z := fold_left (fun a p => (a + snd p)%Z) idx 0%Z.
+
+(* the size check of processXRefStream: None = thrown ("Cross-reference stream data has the wrong size", fewer bytes
+   than announced), Some w = goes on, with a warning when there are more bytes than announced *)
+Definition rc_xs_check (esize : N) (nent : Z) (actual : N) : option bool :=
+  if (Z.of_N esize * nent =? Z.of_N actual)%Z then Some false
+  else if (Z.of_N actual <? Z.of_N esize * nent)%Z then None
+  else Some true.
+
+Fixpoint rc_be (bs : list N) (acc : N) : N := match bs with [] => acc | b :: r => rc_be r (acc * 256 + b) end.
+
+(* insertFreeXrefEntry, called at once for a type 0 entry of a stream *)
+Definition rc_free1 (maxid : Z) (st : rc_xstate) (obj : Z) : rc_xstate :=
+  if negb (match rc_lookup (obj, 0%Z) (x_table st) with Some _ => true | None => false end) && (obj <=? maxid)%Z
+  then mkX (x_table st) (obj :: x_deleted st) (x_warn st) (x_free st) else st.
+
+(* the entries of one subsection: rest of the data, state, whether a type 2 entry was seen *)
+Fixpoint rc_xs_entries (n : nat) (w : N * N * N) (recovery : bool) (maxid : Z) (obj : Z) (data : list N)
+                       (st : rc_xstate) (t2 : bool) : list N * rc_xstate * bool :=
+  match n with
+  | O => (data, st, t2)
+  | S n' =>
+      let '(w0, w1, w2) := w in
+      let f0 := if w0 =? 0 then 1 else rc_be (firstn (N.to_nat w0) data) 0 in
+      let d1 := skipn (N.to_nat w0) data in
+      let f1 := rc_be (firstn (N.to_nat w1) d1) 0 in
+      let d2 := skipn (N.to_nat w1) d1 in
+      let f2 := rc_be (firstn (N.to_nat w2) d2) 0 in
+      let d3 := skipn (N.to_nat w2) d2 in
+      let '(st1, t2') :=
+        if (obj =? 0)%Z then (st, t2)
+        else if f0 =? 0 then (rc_free1 maxid st obj, t2)
+        else if f0 =? 2 then (st, true)
+        else if recovery then (st, t2)
+        else if f0 =? 1
+             then (mkX (rc_insert maxid (x_deleted st) obj (Z.of_N f2) f1 (x_table st)) (x_deleted st) (x_warn st) (x_free st), t2)
+             else (st, t2) in
+      rc_xs_entries n' w recovery maxid (obj + 1)%Z d3 st1 t2'
+  end.
+Fixpoint rc_xs_subsections (idx : list (Z * Z)) (w : N * N * N) (recovery : bool) (maxid : Z) (data : list N)
+                           (st : rc_xstate) (t2 : bool) : rc_xstate * bool :=
+  match idx with
+  | [] => (st, t2)
+  | (f, c) :: r =>
+      let '(d', st', t2') := rc_xs_entries (Z.to_nat c) w recovery maxid f data st t2 in
+      rc_xs_subsections r w recovery maxid d' st' t2'
+  end.
+
+Inductive rc_xs_res :=
+  | XsNone                       (* no /XRef stream at the offset: "xref not found" *)
+  | XsThrow                      (* damaged: an exception leaves processXRefStream *)
+  | XsUnsupported
+  | XsDone (st : rc_xstate) (d : list (list N * pobj)).
+
+Definition rc_xs_section (maxid : Z) (recovery : bool) (file : list N) (len : N) (off : N) (st : rc_xstate) : rc_xs_res :=
+  match rc_xs_object file len off with
+  | XoNone => XsNone
+  | XoUnsupported => XsUnsupported
+  | XoStream d data =>
+      match rc_xs_W d with
+      | None => XsThrow
+      | Some (w0, w1, w2) =>
+          match rc_xs_size d with
+          | None => XsThrow
+          | Some size =>
+              match rc_xs_index d size with
+              | None => XsThrow
+              | Some idx =>
+                  match rc_xs_check (w0 + w1 + w2) (rc_xs_count idx) (rc_len data) with
+                  | None => XsThrow
+                  | Some w =>
+                      let st0 := mkX (x_table st) (x_deleted st) (x_warn st || w) (x_free st) in
+                      let '(st1, t2) := rc_xs_subsections idx (w0, w1, w2) recovery maxid data st0 false in
+                      if t2 then XsUnsupported else XsDone st1 d
+                  end
+              end
+          end
+      end
+  end.
+
 (* read_xref(xref_offset): follows /Prev; trailer = the first one seen *)
 Fixpoint rc_read_xref (fuel : nat) (maxid : Z) (file : list N) (len : N) (off : N) (visited : list N)
                       (st : rc_xstate) (trailer : option (list (list N * pobj))) : rc_xres :=
@@ -627,25 +823,23 @@ Fixpoint rc_read_xref (fuel : nat) (maxid : Z) (file : list N) (len : N) (off : 
             end
         end
       else
-        (* read_xrefStream: for the classic-xref class this always ends in "xref not found" unless the offset
-           points at an object; an object that is an /XRef stream is outside the model *)
-        mkXR false st trailer false
+        (* read_xrefStream *)
+        match rc_xs_section maxid false file len off st with
+        | XsNone | XsThrow => mkXR false st trailer false
+        | XsUnsupported => mkXR false st trailer true
+        | XsDone st2 d =>
+            let tr := match trailer with None => Some d | Some _ => trailer end in
+            match dict_get d rc_n_Prev with
+            | None => mkXR true st2 tr false
+            | Some (SpInt p) =>
+                if (p =? 0)%Z then mkXR true st2 tr false
+                else if (p <? 0)%Z then mkXR false st2 tr true
+                else if existsb (N.eqb (Z.to_N p)) (off :: visited) then mkXR false st2 tr false
+                else rc_read_xref f maxid file len (Z.to_N p) (off :: visited) st2 tr
+            | Some _ => mkXR false st2 tr false
+            end
+        end
   end.
-
-(* ------------------------------------------------------------------ read_object_start *)
-Definition rc_object_start (s : list N) : option rc_og :=
-  let t1 := rc_read_token 0 s in
-  if rc_is_int t1 then
-    let s1 := rc_drop (rc_t_end t1) s in
-    let t2 := rc_read_token 0 s1 in
-    if rc_is_int t2 then
-      let t3 := rc_read_token 0 (rc_drop (rc_t_end t2) s1) in
-      if rc_is_word t3 rc_kw_obj then
-        let o := rc_atoi (rc_t_raw t1) in
-        if (o =? 0)%Z then None else Some (o, rc_atoi (rc_t_raw t2))
-      else None
-    else None
-  else None.
 
 (* the dictionary an object at `off` holds (strict specification parser on the body) *)
 Definition rc_dict_at (file : list N) (len : N) (off : N) : option (list (list N * pobj)) :=
@@ -706,6 +900,26 @@ Fixpoint rc_last_catalog (file : list N) (len : N) (t : rc_table) (best : option
   | (og, off) :: r => rc_last_catalog file len r (if rc_is_catalog file len off then Some og else best)
   end.
 
+(* "If there are any xref streams, take the last one to appear": the table is walked in id order; setTrailer keeps the
+   FIRST candidate's dictionary (max_size is never updated, so every candidate passes the comparison), max_offset
+   ends up as the offset of the LAST candidate, which is then read again in recovery mode (only free and type 2
+   entries are looked at there; an exception is a warning) *)
+Fixpoint rc_xs_trailer (file : list N) (len : N) (t : rc_table) : option (list (list N * pobj)) :=
+  match t with
+  | [] => None
+  | (_, off) :: r =>
+      match rc_xs_dict_at file len off with
+      | Some (d, _) => Some d
+      | None => rc_xs_trailer file len r
+      end
+  end.
+Fixpoint rc_xs_last_off (file : list N) (len : N) (t : rc_table) (best : option N) : option N :=
+  match t with
+  | [] => best
+  | (_, off) :: r =>
+      rc_xs_last_off file len r (match rc_xs_dict_at file len off with Some _ => Some off | None => best end)
+  end.
+
 (* reconstruct_xref. deleted = deleted_objects at that moment; trailer = m->trailer at that moment *)
 Definition rc_reconstruct (maxid : Z) (file : list N) (len : N) (deleted : list Z)
                           (trailer : option (list (list N * pobj))) : rc_result :=
@@ -714,7 +928,19 @@ Definition rc_reconstruct (maxid : Z) (file : list N) (len : N) (deleted : list 
   let tr :=
     match trailer with
     | Some d => Some d
-    | None => rc_pick_trailer file len (rev' (rc_trailer_pos evs)) 100
+    | None =>
+        match rc_pick_trailer file len (rev' (rc_trailer_pos evs)) 100 with
+        | Some d => Some d
+        | None => rc_xs_trailer file len t
+        end
+    end in
+  (* the candidate cross-reference stream read again in recovery mode: nothing enters the table; a type 2 entry or an
+     undecodable stream there is outside the model *)
+  let unsup :=
+    match trailer, rc_pick_trailer file len (rev' (rc_trailer_pos evs)) 100, rc_xs_last_off file len t None with
+    | None, None, Some off =>
+        match rc_xs_section maxid true file len off (mkX t [] true []) with XsUnsupported => true | _ => false end
+    | _, _, _ => false
     end in
   let root :=
     match tr with
@@ -722,7 +948,7 @@ Definition rc_reconstruct (maxid : Z) (file : list N) (len : N) (deleted : list 
     | None => rc_last_catalog file len t None
     end in
   let fatal := match root with None => true | Some _ => false end || match t with [] => true | _ => false end in
-  mkRes fatal true true t root false.
+  mkRes fatal true true t root unsup.
 
 (* does some table entry not lead to its own header (resolve -> readObjectAtOffset) *)
 Definition rc_header_ok (file : list N) (len : N) (og : rc_og) (off : N) : bool :=
@@ -863,6 +1089,7 @@ Definition rc_late_startxref (maxid : Z) (file : list N) (len : N) : option rc_x
 Definition rc_view_recon (maxid : Z) (file : list N) (len : N) (sx : Z) (deleted : list Z)
                          (trailer : option (list (list N * pobj))) (unsupported : bool) : rc_result :=
       let r := rc_reconstruct maxid file len deleted trailer in
+      let unsupported := unsupported || r_unsupported r in
       if r_fatal r then mkRes true true true (r_table r) (r_root r) unsupported else
       let st := mkRS (r_table r) true true false (r_root r) in
       (* read_xrefStream: the startxref offset was no xref table; if an object header stands there the object is
